@@ -386,8 +386,13 @@ func (p ShortestAlts) To(vid int64) (path []graph.Node, weight float64, unique b
 			} else {
 				next = c[0]
 			}
-			if seen[next] >= 0 {
-				path = path[:seen[next]]
+			if i := seen[next]; i >= 0 {
+				// Cut the zero-weight cycle out of the path and
+				// forget the positions of the removed nodes.
+				for _, n := range path[i:] {
+					seen[p.indexOf[n.ID()]] = -1
+				}
+				path = path[:i]
 			}
 			seen[next] = len(path)
 			path = append(path, p.nodes[next])
@@ -663,8 +668,13 @@ func (p AllShortest) Between(uid, vid int64) (path []graph.Node, weight float64,
 		} else {
 			next = c[0]
 		}
-		if seen[next] >= 0 {
-			path = path[:seen[next]]
+		if i := seen[next]; i >= 0 {
+			// Cut the zero-weight cycle out of the path and
+			// forget the positions of the removed nodes.
+			for _, n := range path[i:] {
+				seen[p.indexOf[n.ID()]] = -1
+			}
+			path = path[:i]
 		}
 		seen[next] = len(path)
 		path = append(path, p.nodes[next])
